@@ -37,7 +37,7 @@ MAX_DEATHS_PER_SLICE = 10 if QUICK else 30
 MAX_TCP_RESTARTS = 30
 AS_LIMIT = 2 << 30           # address-space limit of the respcheck child (a declared bulk length of 2^31 cannot be allocated)
 
-CHILD_ENV = dict(os.environ, GOMAXPROCS="1")     # one parser goroutine + one consumer per run: a single P avoids cross-thread wake-ups
+CHILD_ENV = dict(os.environ, GOMAXPROCS="1", GOGC="1000")     # one parser goroutine + one consumer per run: a single P avoids cross-thread wake-ups
 tool = ks.build_tool("respcheck")
 server.build_server()
 t_build = time.time() - v.t0
@@ -97,7 +97,7 @@ def run_slice(job):
     shutil.rmtree(wd, ignore_errors=True)
     progress = os.path.join(d, "progress-%s-%d" % (mode, sl))
     out = {"mode": mode, "slice": sl, "file": vecfile, "fails": [], "deaths": [], "vectors": 0, "runs": 0, "exhaustive": 0, "hangs": 0,
-           "by_term": {}, "by_why": {}, "fail_counts": {}, "truncated": False, "t_tlc": t_tlc}
+           "by_term": {}, "by_why": {}, "fail_counts": {}, "truncated": False, "t_tlc": t_tlc, "stalls": 0}
     offset, index, no_progress = 0, 0, 0
     t0 = time.time()
     while True:
@@ -115,6 +115,7 @@ def run_slice(job):
             out["runs"] += summ["runs"]
             out["exhaustive"] += summ["exhaustive_split_vectors"]
             out["hangs"] += summ["hangs"]
+            out["stalls"] += summ.get("watchdog_expiries_not_repeated", 0)
             for k in ("by_term", "by_why", "fail_counts"):
                 for a, b in summ[k].items():
                     out[k][a] = out[k].get(a, 0) + b
@@ -154,10 +155,10 @@ with concurrent.futures.ThreadPoolExecutor(max_workers=16) as ex:
     mcx = f_ex.result()
 t_b1 = time.time() - v.t0 - t_build
 
-tot = {"vectors": 0, "runs": 0, "exhaustive": 0, "hangs": 0, "deaths": 0}
+tot = {"vectors": 0, "runs": 0, "exhaustive": 0, "hangs": 0, "deaths": 0, "stalls": 0}
 by_term, by_why, by_class = {}, {}, {}
 for s in slices:
-    for k in ("vectors", "runs", "exhaustive", "hangs"):
+    for k in ("vectors", "runs", "exhaustive", "hangs", "stalls"):
         tot[k] += s[k]
     tot["deaths"] += len(s["deaths"])
     by_class[s["mode"]] = by_class.get(s["mode"], 0) + s["vectors"]
@@ -536,7 +537,7 @@ cov = {"states": mc.distinct, "transitions": mc.generated, "traces_validated_aga
                         "MC_RespExact.cfg": {"wall_s": round(mcx.wall, 1), "checked": ["Exactness (ASSUME)", "prefix monotonicity (ASSUME)"]}},
        "vectors": tot["vectors"], "vectors_by_class": by_class, "vectors_by_term": by_term, "branch_labels_covered": len(by_why), "vectors_by_branch": by_why,
        "chunkings_executed": tot["runs"], "vectors_run_under_every_split": tot["exhaustive"], "all_strings_max_len": ALL_MAXLEN,
-       "crashers": tot["deaths"], "crasher_signatures": sorted("%s | %s" % k for k in crashers), "hangs": tot["hangs"],
+       "crashers": tot["deaths"], "crasher_signatures": sorted("%s | %s" % k for k in crashers), "hangs": tot["hangs"], "watchdog_expiries_not_repeated_on_retry": tot["stalls"],
        "slices_cut_short": len(truncated), "in_process_deaths_not_reproduced_over_tcp": notes,
        "tcp_checks": tcp_checks, "tcp_checks_by_term": tcp_by_term, "tcp_confirmed_crashes": tcp_confirmed, "tcp_server_restarts": live.restarts,
        "b2_pipelines": B2_PIPELINES, "b2_commands": b2_cmds, "b2_bytes": b2_bytes, "b2_failures": b2_fail,
